@@ -414,76 +414,29 @@ def c12_structure(units, R):
         return sw, start, cfg.reachable(start, stop=others) | {start}
 
     true_rets = [r for r in cfg.returns() if r.expr is not None and const_val(r.expr) not in (None, 0)]
-    # arrays: `return true` only when both cursors are exhausted
+    # arrays: `return true` only when both cursors are exhausted.  The element walk may live in the arm itself or in a static
+    # helper that the arm calls with both arrays
     sw, start, region = arm_region(32)
-    # the element cursors: locals that the arm points at the first child of a / of b (declaration, assignment or the
-    # cJSON_ArrayForEach macro)
-    cur = {}
+    afn, acfg, aregion, apa, apb = fn, cfg, region, pa['d'], pb['d']
     for n in cfg.nodes:
-        if n.id not in region:
+        if n.id not in region or n.expr is None:
             continue
-        for ev in node_effects(n):
-            if ev.kind == 'declinit' and ev.rhs is not None:
-                d, rhs = ev.lhs['d'], ev.rhs
-            elif ev.kind == 'store' and ev.node['op'] == '=' and is_ref(ev.lhs) and strip_casts(ev.lhs).get('dk') == 'local':
-                d, rhs = strip_casts(ev.lhs)['d'], ev.node['r']
-            else:
+        for c in walk(n.expr):
+            if c.get('k') != 'call':
                 continue
-            for x in walk(rhs):
-                if x.get('k') == 'mem' and x['f'] == 'child' and is_ref(x['b']) and strip_casts(x['b'])['d'] in (pa['d'], pb['d']):
-                    cur.setdefault(strip_casts(x['b'])['d'], set()).add(d)
-    if len(cur.get(pa['d'], ())) != 1 or len(cur.get(pb['d'], ())) != 1:
-        raise AnalysisBroken('C12: array arm of cJSON_Compare does not have one element cursor per array')
-    ca, cb = next(iter(cur[pa['d']])), next(iter(cur[pb['d']]))
-
-    def tr(node, st):
-        st = set(st)
-        for ev in node_effects(node):
-            if ev.kind in ('store', 'declinit'):
-                tgt = ev.lhs if ev.kind == 'store' else None
-                d = strip_casts(tgt)['d'] if tgt is not None and is_ref(tgt) else (ev.lhs['d'] if ev.kind == 'declinit' else None)
-                if d == ca:
-                    st -= {'a0', 'a1', 'eq'}
-                if d == cb:
-                    st -= {'b0', 'b1', 'eq'}
-        return frozenset(st)
-
-    def rf(node, label, st):
-        if label[0] not in ('T', 'F'):
-            return st
-        e = strip_casts(label[1])
-        truth = label[0] == 'T'
-        st = set(st)
-        if e.get('k') == 'ref':
-            if e['d'] == ca:
-                st.add('a1' if truth else 'a0')
-            if e['d'] == cb:
-                st.add('b1' if truth else 'b0')
-        elif e.get('k') == 'bin' and e['op'] in ('==', '!='):
-            l, r = strip_casts(e['l']), strip_casts(e['r'])
-            eq = (e['op'] == '==') == truth
-            for (x, y) in ((l, e['r']), (r, e['l'])):
-                if x.get('k') == 'ref' and is_null_const(y):
-                    if x['d'] == ca:
-                        st.add('a0' if eq else 'a1')
-                    if x['d'] == cb:
-                        st.add('b0' if eq else 'b1')
-            if l.get('k') == 'ref' and r.get('k') == 'ref' and {l['d'], r['d']} == {ca, cb} and eq:
-                st.add('eq')
-        if ('a0' in st and 'a1' in st) or ('b0' in st and 'b1' in st):
-            return None
-        return frozenset(st)
-    states = solve(cfg, frozenset(), tr, rf, lambda a, b: a & b)
-    n_arr = 0
-    for r in true_rets:
-        if r.id in region and r.id in states:
-            # only returns that lie after the element loop (reachable from a cursor declaration)
-            st = states[r.id]
-            n_arr += 1
-            ok = ('a0' in st and 'b0' in st) or ('eq' in st and ('a0' in st or 'b0' in st)) or 'eq' in st
-            R.ob('C12S', fn, r.stmt, 'arrays compare equal only when both element cursors are exhausted', ok,
-                 'facts at the return: %s' % sorted(st), key='array-length')
-    R.floor('C12S', 'true returns in the array arm', n_arr, 1)
+            h = u.functions.get(callee_name(c))
+            if h is None or not h.static or h.name == fn.name:
+                continue
+            m = {}
+            for p, a0 in zip(h.params, c['args']):
+                a1 = strip_casts(a0)
+                if a1.get('k') == 'ref' and a1['d'] in (pa['d'], pb['d']):
+                    m[a1['d']] = p['d']
+            if len(m) == 2 and any(x.get('k') == 'mem' and x['f'] == 'child' for x in h.nodes()):
+                afn, acfg = h, h.cfg()
+                aregion = {nd.id for nd in acfg.nodes}
+                apa, apb = m[pa['d']], m[pb['d']]
+    _c12_array(R, u, afn, acfg, aregion, apa, apb)
     # objects: members looked up in both directions (or sizes compared); the member walk may live in a static helper that
     # the arm calls with the two arguments in both orders
     sw, start, region = arm_region(64)
@@ -873,3 +826,93 @@ def lst3(units, R):
                  'every refusal precedes the first link store' if not bad else
                  'refusal at line %d reachable after the container was modified' % bad[0].line, key='store:' + expr_str(ev.node)[:50])
     R.floor('LST3', 'link stores in public edit functions', n, 15)
+
+
+def _c12_array(R, u, fn, cfg, region, pa_d, pb_d):
+    from ..dataflow import solve
+    true_rets = [r for r in cfg.returns() if r.expr is not None and const_val(r.expr) not in (None, 0)]
+    # the element cursors: locals that the arm points at the first child of a / of b (declaration, assignment or the
+    # cJSON_ArrayForEach macro)
+    cur = {}
+    for n in cfg.nodes:
+        if n.id not in region:
+            continue
+        for ev in node_effects(n):
+            if ev.kind == 'declinit' and ev.rhs is not None:
+                d, rhs = ev.lhs['d'], ev.rhs
+            elif ev.kind == 'store' and ev.node['op'] == '=' and is_ref(ev.lhs) and strip_casts(ev.lhs).get('dk') == 'local':
+                d, rhs = strip_casts(ev.lhs)['d'], ev.node['r']
+            else:
+                continue
+            for x in walk(rhs):
+                if x.get('k') == 'mem' and x['f'] == 'child' and is_ref(x['b']) and strip_casts(x['b'])['d'] in (pa_d, pb_d):
+                    cur.setdefault(strip_casts(x['b'])['d'], set()).add(d)
+    if len(cur.get(pa_d, ())) != 1 or len(cur.get(pb_d, ())) != 1:
+        raise AnalysisBroken('C12: array arm of cJSON_Compare does not have one element cursor per array')
+    ca, cb = next(iter(cur[pa_d])), next(iter(cur[pb_d]))
+
+    def tr(node, st):
+        st = set(st)
+        for ev in node_effects(node):
+            if ev.kind in ('store', 'declinit'):
+                tgt = ev.lhs if ev.kind == 'store' else None
+                d = strip_casts(tgt)['d'] if tgt is not None and is_ref(tgt) else (ev.lhs['d'] if ev.kind == 'declinit' else None)
+                if d == ca:
+                    st -= {'a0', 'a1', 'eq'}
+                if d == cb:
+                    st -= {'b0', 'b1', 'eq'}
+        return frozenset(st)
+
+    def rf(node, label, st):
+        if label[0] not in ('T', 'F'):
+            return st
+        e = strip_casts(label[1])
+        truth = label[0] == 'T'
+        st = set(st)
+        if e.get('k') == 'ref':
+            if e['d'] == ca:
+                st.add('a1' if truth else 'a0')
+            if e['d'] == cb:
+                st.add('b1' if truth else 'b0')
+        elif e.get('k') == 'bin' and e['op'] in ('==', '!='):
+            l, r = strip_casts(e['l']), strip_casts(e['r'])
+            eq = (e['op'] == '==') == truth
+            for (x, y) in ((l, e['r']), (r, e['l'])):
+                if x.get('k') == 'ref' and is_null_const(y):
+                    if x['d'] == ca:
+                        st.add('a0' if eq else 'a1')
+                    if x['d'] == cb:
+                        st.add('b0' if eq else 'b1')
+            if l.get('k') == 'ref' and r.get('k') == 'ref' and {l['d'], r['d']} == {ca, cb} and eq:
+                st.add('eq')
+        if ('a0' in st and 'a1' in st) or ('b0' in st and 'b1' in st):
+            return None
+        return frozenset(st)
+    states = solve(cfg, frozenset(), tr, rf, lambda a, b: a & b)
+    n_arr = 0
+    points = [(r, r.stmt) for r in true_rets]
+    # `return (x) ? true : false;` - the point of the true result is the selected arm
+    for nd in cfg.nodes:
+        if nd.kind == 'stmt' and (nd.name or '').startswith('cond-arm:') and nd.expr is not None and const_val(nd.expr) not in (None, 0):
+            cid = int(nd.name.split(':')[1])
+            if any(r.expr is not None and any(x.get('id') == cid for x in walk(r.expr)) for r in cfg.returns()):
+                points.append((nd, nd.expr))
+    # `return a_cursor == b_cursor;` is true exactly when both are exhausted (the lists are disjoint)
+    for r in cfg.returns():
+        e = strip_casts(r.expr) if r.expr is not None else {}
+        if e.get('k') == 'cond' and const_val(e['t']) not in (None, 0) and const_val(e['e']) == 0:
+            e = strip_casts(e['c'])        # (x) ? true : false
+        if e.get('k') == 'bin' and e['op'] == '==' and is_ref(e['l']) and is_ref(e['r']) and \
+                {strip_casts(e['l'])['d'], strip_casts(e['r'])['d']} == {ca, cb} and r.id in region:
+            n_arr += 1
+            R.ob('C12S', fn, r.stmt, 'arrays compare equal only when both element cursors are exhausted', True,
+                 'the result is the comparison of the two cursors itself', key='array-length')
+    for (r, where) in points:
+        if r.id in region and r.id in states:
+            # only returns that lie after the element loop (reachable from a cursor declaration)
+            st = states[r.id]
+            n_arr += 1
+            ok = ('a0' in st and 'b0' in st) or ('eq' in st and ('a0' in st or 'b0' in st)) or 'eq' in st
+            R.ob('C12S', fn, where, 'arrays compare equal only when both element cursors are exhausted', ok,
+                 'facts at the return: %s' % sorted(st), key='array-length')
+    R.floor('C12S', 'true returns in the array arm', n_arr, 1)
